@@ -246,7 +246,7 @@ func c01FileStorage(c *core.Ctx, ids []int, contents []string) *filterlist.RuleS
 	var ls []filterlist.RuleList
 	for i, content := range contents {
 		fn := filepath.Join(dir, "list"+strconv.Itoa(i)+".txt")
-		if os.WriteFile(fn, []byte(content), 0o644) != nil {
+		if os.WriteFile(fn, []byte(util.ChopEOL(content)), 0o644) != nil {
 			return nil
 		}
 		fl, ferr := filterlist.NewFileRuleList(ids[i], fn, false)
